@@ -69,22 +69,36 @@ def run_case(ctx, case, api=None):
             import tempfile
             import wave
 
-            fd, path = tempfile.mkstemp(prefix="vf-c05-", suffix=".raw" if api.startswith("raw") else ".wav")
-            os.close(fd)
+            import shutil
+
+            tdir = tempfile.mkdtemp(prefix="vf-c05-")
+            ext = ".raw" if api.startswith("raw") else ".wav"
+            if (case["pcm_seed"] >> 33) & 1:
+                # the file is named through a symbolic link to a directory and "..": the operating system, not string
+                # surgery, says which file that is (a different file sits where a lexical clean-up would look)
+                path, decoy = AC.path_through_symlink(tdir, "in" + ext)
+                ctx.count("files_named_through_a_symlinked_directory")
+            else:
+                path, decoy = os.path.join(tdir, "in" + ext), None
             try:
+                for target, content in ((path, src_data), (decoy, bytes(len(src_data)))):
+                    if target is None:
+                        continue
+                    if api.startswith("raw"):
+                        with open(target, "wb") as fp:
+                            fp.write(content)
+                    else:
+                        with wave.open(target, "wb") as fp:
+                            fp.setframerate(case["rate"])
+                            fp.setsampwidth(case["width"])
+                            fp.setnchannels(case["channels"])
+                            fp.writeframes(content)
                 if api.startswith("raw"):
-                    with open(path, "wb") as fp:
-                        fp.write(src_data)
                     regions = list(auditok.split(path, large_file=api.endswith("lazy"), **kw, **AC.audio_kwargs(case)))
                 else:
-                    with wave.open(path, "wb") as fp:
-                        fp.setframerate(case["rate"])
-                        fp.setsampwidth(case["width"])
-                        fp.setnchannels(case["channels"])
-                        fp.writeframes(src_data)
                     regions = list(auditok.split(path, large_file=api.endswith("lazy"), **kw))
             finally:
-                os.unlink(path)
+                shutil.rmtree(tdir, ignore_errors=True)
         elif api == "stdin_pipe":
             import random as _random
             import sys as _sys
